@@ -122,12 +122,16 @@ structure St where
   started : List Cid := []
   out : List String := []
 
-def call (cfg : Cfg) (s : St) (c : Json) : St :=
-  let name := match c.getArrVal? 0 with | .ok (Json.str x) => x | _ => "?"
+def call (cfg0 : Cfg) (s : St) (c : Json) : St :=
+  let name0 := match c.getArrVal? 0 with | .ok (Json.str x) => x | _ => "?"
+  -- a leading "x": the call runs with validity 0 (what it creates / resets is expired at once)
+  let expired := name0.startsWith "x"
+  let name : String := if expired then String.ofList (name0.toList.drop 1) else name0
+  let cfg : Cfg := if expired then { cfg0 with validity := 0 } else cfg0
   let k := match c.getArrVal? 1 with | .ok j => (j.getNat?.toOption.getD 0) | _ => 0
   let pick : Option Cid := if s.started.isEmpty then none else s.started[k % s.started.length]?
   let fin := fun (n : Node) (started : List Cid) (tok method : String) =>
-    { s with n := n, started := started, out := s.out ++ [s!"{tok}:{lockTok method}:n={n.convs.length}"] }
+    { s with n := n, started := started, out := s.out ++ [s!"{if expired then "x" else ""}{tok}:{lockTok method}:n={n.convs.length}"] }
   let start := fun (data : ConvData) =>
     match startConversation cfg s.n k data with
     | none => fin s.n s.started s!"{name}:p{k}:refused" "startConversation"
